@@ -44,7 +44,7 @@ class C14(Prop):
     floors = {'quick': (500, 200), 'thorough': (10000, 4000)}
     must_reach = []
     quick_cases = 4000
-    thorough_cases = 600000
+    thorough_cases = 2500000
     case_timeout = 20
 
     def shrinkable(self, case):
